@@ -89,7 +89,16 @@ def build_problem(setup, **extra):
                               fn=fn, cons=cons, **extra)
 
 
-def run_one(setup, hostile=0.0, procs=1, problem=None, evaluator_type=None, **extra):
+class RunTimeout(Exception):
+    """raised by the wall-clock guard inside a run (e.g. duplicate rejection that can never fill the population in a box
+    narrower than the 1e-10 equality tolerance allows); the run counts as aborted, never as a verdict"""
+
+
+def _alarm(signum, frame):
+    raise RunTimeout("run exceeded its wall-clock guard")
+
+
+def run_one(setup, hostile=0.0, procs=1, problem=None, evaluator_type=None, timeout=30, **extra):
     """returns (problem, algorithm, exception or None)"""
     r = (vrng.HostileRandom(setup["seed"], hostile) if hostile > 0 else vrng.SeededRandom(setup["seed"]))
     vrng.install(r)
@@ -97,9 +106,19 @@ def run_one(setup, hostile=0.0, procs=1, problem=None, evaluator_type=None, **ex
     p = problem or build_problem(setup, **extra)
     a = make(setup["algo"], p, setup["N"], setup["G"], procs=procs, evaluator_type=evaluator_type)
     err = None
+    import signal
+    import threading
+    guard = timeout and threading.current_thread() is threading.main_thread()
+    if guard:
+        old = signal.signal(signal.SIGALRM, _alarm)
+        signal.setitimer(signal.ITIMER_REAL, timeout)
     try:
         a.run()
     except Exception as e:  # the caller decides what an aborted run means
         err = e
         err._tb = traceback.format_exc()
+    finally:
+        if guard:
+            signal.setitimer(signal.ITIMER_REAL, 0)
+            signal.signal(signal.SIGALRM, old)
     return p, a, err
